@@ -192,3 +192,14 @@ func commaOkEdge(b *ssa.BasicBlock, succ int, pred func(m, k ssa.Value) bool) bo
 }
 
 func constOf(s string) constant.Value { return constant.MakeString(s) }
+
+func ifaceNumMethods(t types.Type) int {
+	if i, ok := t.(*types.Interface); ok {
+		return i.NumMethods()
+	}
+	return 0
+}
+
+func ifaceMethodName(t types.Type, i int) string {
+	return t.(*types.Interface).Method(i).Name()
+}
